@@ -1,2 +1,4 @@
 -- Root of the `RactorModel` library: every model, lemma and property module.
 import RactorModel.Props.C18
+import RactorModel.Props.C02
+import RactorModel.Props.C07
